@@ -432,6 +432,9 @@ impl LogReader {
 
         // A buffer consolidating all of the fragments retrieved from the log file.
         let mut data_buffer: Vec<u8> = vec![];
+        // True while `data_buffer` holds the fragments of a record that was started by a
+        // `BlockType::First` fragment and has not been completed yet.
+        let mut is_in_fragmented_record = false;
 
         loop {
             let maybe_record = self.read_physical_record();
@@ -442,18 +445,35 @@ impl LogReader {
                         _ => return Err(physical_read_err),
                     }
                 }
+
+                // A damaged fragment is skipped. The fragments collected so far can no longer be
+                // completed, so they are dropped as well.
+                data_buffer.clear();
+                is_in_fragmented_record = false;
             } else {
                 let record = maybe_record.unwrap();
-                data_buffer.extend(record.data);
 
                 match record.block_type {
                     BlockType::Full => {
-                        return Ok((data_buffer, false));
+                        // Fragments of an unfinished record (e.g. the writer died before writing
+                        // the last fragment) are discarded.
+                        return Ok((record.data, false));
                     }
-                    BlockType::First => {}
-                    BlockType::Middle => {}
+                    BlockType::First => {
+                        // Start a new record. This discards fragments of an unfinished record.
+                        data_buffer = record.data;
+                        is_in_fragmented_record = true;
+                    }
+                    BlockType::Middle => {
+                        if is_in_fragmented_record {
+                            data_buffer.extend(record.data);
+                        }
+                    }
                     BlockType::Last => {
-                        return Ok((data_buffer, false));
+                        if is_in_fragmented_record {
+                            data_buffer.extend(record.data);
+                            return Ok((data_buffer, false));
+                        }
                     }
                 }
             }
